@@ -506,8 +506,8 @@ func caseTmpl(h *H, r *hlib.Rng, variant string) {
 		probe("tx."+cn, signed, func(c *sealed) {
 			tx := append([]byte{}, cap_(c).Transaction()...)
 			k := txClasses(tx)[cn]
-			if cn == "sigtime" {
-				k[0]++ // not the push opcode
+			if cn == "sigtime" || cn == "extranonce" {
+				k[0]++ // not the push opcode: changing a push length re-frames the scriptSig, it is not a byte the miner may choose
 			}
 			tx[k[0]+r.Intn(k[1]-k[0])] ^= byte(1 << uint(r.Intn(8)))
 			cap_(c).SetTransaction(tx)
